@@ -1046,7 +1046,7 @@ type c14Bounds struct {
 
 func c14BoundsFor(thorough bool) c14Bounds {
 	if thorough {
-		return c14Bounds{FullLen: 15, AnyLen: 14, FullLenB: 14, LongCuts: 2, LongCutsB: 3, LongAll: true, NonStreamLn: 10}
+		return c14Bounds{FullLen: 15, AnyLen: 13, FullLenB: 14, LongCuts: 2, LongCutsB: 3, LongAll: true, NonStreamLn: 10}
 	}
 	return c14Bounds{FullLen: 14, AnyLen: 0, FullLenB: 12, LongCuts: 1, LongCutsB: 2, LongAll: false, NonStreamLn: 8}
 }
@@ -1163,6 +1163,8 @@ func c14Units(thorough bool) []c14Unit {
 			units = append(units, c14Unit{"C-nonstream", c14ClientReq, h, d, false, b.LongCuts})
 		}
 	}
+	// simplest first across all parts: shortest delivered string first (stable, so deterministic)
+	sort.SliceStable(units, func(i, j int) bool { return len(units[i].D) < len(units[j].D) })
 	return units
 }
 
